@@ -4,6 +4,13 @@ import json, os, subprocess
 here = os.path.dirname(os.path.abspath(__file__))
 props = [json.loads(l) for l in open(os.path.join(here, 'properties.jsonl'))]
 checks = json.load(open(os.path.join(here, 'checks.json')))
+import glob
+have = {c["id"] for c in checks["checks"]}
+for f in sorted(glob.glob(os.path.join(here, 'engine/checks/*/check.json'))):
+    c = json.load(open(f))
+    if c["id"] not in have:
+        checks["checks"].append(c)
+checks["checks"].sort(key=lambda c: c["id"])
 hooks = subprocess.run(['git', '-C', '/repo', 'log', '--format=%H %s', '--grep=^verif hook'], capture_output=True, text=True).stdout.strip().splitlines()
 man = {
     "version": 1,
